@@ -305,9 +305,10 @@ void vh_case(vh::Ctx& c) {
   c.count("reference_runs");
   c.count("checks_in_reference_runs", N);
   c.count("progress_samples", M.progressSamples);
+  bool progressReported = false;  // report once per case, keep exploring (a known finding must not mask the rest)
   if (M.decreases) {
-    c.violation("progress:decreases:" + w.entry, vh::J().s("entry", w.entry).s("desc", w.desc).d("from", M.decFrom).d("to", M.decTo).i("at_check", M.decAtCheck).i("times", M.decreases).str());
-    return;
+    c.violation("progress:decreases:" + w.entry.substr(0, w.entry.find(':')), vh::J().s("entry", w.entry).s("desc", w.desc).d("from", M.decFrom).d("to", M.decTo).i("at_check", M.decAtCheck).i("times", M.decreases).str());
+    progressReported = true;
   }
   if (M.above1) {
     c.violation("progress:above-1:" + w.entry, detail("Progress() > 1 sampled during evaluation", -1));
@@ -360,9 +361,9 @@ void vh_case(vh::Ctx& c) {
     }
     const std::string site = M.firedSite;
     c.sig("site:" + site);
-    if (M.decreases) {
-      c.violation("progress:decreases:" + w.entry, vh::J().s("entry", w.entry).s("desc", w.desc).d("from", M.decFrom).d("to", M.decTo).i("at_check", M.decAtCheck).i("cancel_at", k).str());
-      return;
+    if (M.decreases && !progressReported) {
+      c.violation("progress:decreases:" + w.entry.substr(0, w.entry.find(':')), vh::J().s("entry", w.entry).s("desc", w.desc).d("from", M.decFrom).d("to", M.decTo).i("at_check", M.decAtCheck).i("cancel_at", k).str());
+      progressReported = true;
     }
     Obs O = observe(out);
     bool complete = O.st == R.st && O.h == R.h;
@@ -408,9 +409,33 @@ void vh_case(vh::Ctx& c) {
       Manifold so = sib.WithContext(fresh);
       so.Status();
       Obs S = observe(so);
-      if (S.st != RS.st || S.h != RS.h) {
+      // The shared, still lazy sub-expression was part of the cancelled
+      // evaluation: the library poisons such in-flight op nodes as Cancelled
+      // on purpose (csg_tree.cpp), so "Cancelled and empty" is allowed here.
+      // What must never happen is a wrong solid from a partially reduced
+      // tree: a NoError sibling must be a valid closed mesh of the reference
+      // volume (bit-identity is NOT demanded: its evaluation history differs).
+      bool ok;
+      std::string why;
+      if (S.st == Manifold::Error::Cancelled) {
+        ok = S.empty;
+        why = "Cancelled but not empty";
+        c.count("sibling_poisoned_cancelled");
+      } else if (S.st != RS.st) {
+        ok = false;
+        why = std::string("status ") + vo::ErrName(S.st);
+      } else {
+        MeshGL64 sm = so.GetMeshGL64();
+        vo::TopoReport t = vo::CheckClosedManifold(sm);
+        double v1 = so.Volume(), v0 = refSibling.Volume();
+        double bound = 4 * std::max(so.GetTolerance(), refSibling.GetTolerance()) * (so.SurfaceArea() + refSibling.SurfaceArea()) + 1e-9;
+        ok = t.ok && std::abs(v1 - v0) <= bound;
+        why = !t.ok ? "topology " + t.why : "volume " + vd::fmt(v1) + " vs reference " + vd::fmt(v0) + " (bound " + vd::fmt(bound) + ")";
+        c.count("sibling_solid_checks");
+      }
+      if (!ok) {
         c.violation("cancel:" + w.entry + ":sibling-of-cancelled-tree-wrong@" + site,
-                    detail(std::string("expression sharing a sub-node, evaluated with a fresh context: status ") + vo::ErrName(S.st) + (S.h != RS.h ? ", mesh differs" : ""), k));
+                    detail("expression sharing a sub-node, evaluated with a fresh context: " + why, k));
         return;
       }
       c.count("sibling_checks");
